@@ -41,3 +41,22 @@ Proof. exact ranges_spec. Qed.
 Example C09_example :
   filter_table_m Z (-1)%Z (prep_table_m Z (-1)%Z [(30, 0); (10, 1); (20, 2)]%Z) [20; 30]%Z = Some [(20, 2); (30, 0)]%Z.
 Proof. reflexivity. Qed.
+
+(* user-supplied additional parameters are attached by model name: the value in row i is the dictionary's entry for the model
+   of fit i; a column exists whenever every selected model has an entry; the order of the dictionary is irrelevant *)
+From SedV Require Import ReadM Additional.
+Theorem C09_additional_by_name : forall (V : Type) extra names vs, attach_col V extra names = Some vs ->
+  length vs = length names /\ forall i d, (i < length names)%nat -> lookup V (nth i names 0%Z) extra = Some (nth i vs d).
+Proof. exact attach_by_name. Qed.
+
+Theorem C09_additional_total : forall (V : Type) extra names, (forall k, In k names -> In k (map fst extra)) ->
+  exists vs, attach_col V extra names = Some vs.
+Proof. exact attach_total. Qed.
+
+Theorem C09_additional_dict_order : forall (V : Type) extra extra' names, NoDup (map fst extra) -> Permutation extra extra' ->
+  attach_col V extra names = attach_col V extra' names.
+Proof. exact attach_dict_order. Qed.
+
+Example C09_additional_example :
+  attach_col Z [(3, 30); (1, 10); (2, 20)]%Z [2; 3]%Z = Some [20; 30]%Z /\ attach_col Z [(3, 30)]%Z [2; 3]%Z = None.
+Proof. split; reflexivity. Qed.
